@@ -59,7 +59,7 @@ def arm_state(mab, arm):
     if name == "_Linear":
         m = imp.arm_to_model[arm]
         # the whole regression object but its generator: beta, A, A_inv, Xty, hyper-parameters, fitted scaler
-        return tuple(canon.tokens(m, skip_generators=True))
+        return canon.digest(m, skip_generators=True)
     if name in ("_EpsilonGreedy", "_Popularity"):
         return (float(imp.arm_to_sum[arm]), float(imp.arm_to_count[arm]), float(imp.arm_to_expectation[arm]))
     if name == "_UCB1":
